@@ -64,30 +64,40 @@ def teardown(ctx):
     _mon.detach_all()
 
 
-def mda_pair_found(m, all_frac, site_frac_one, radius, cutoff, atom_flat_index):
-    """Direct MDAnalysis calls (no GEMDAT code): (pkdtree finds the pair?, brute force finds it?)."""
+def mda_pair_found(m, all_frac, group_site_frac, s_local, radius, cutoff, atom_flat_index):
+    """Direct MDAnalysis calls (no GEMDAT code): (pkdtree finds the pair?, brute force finds it?).
+
+    group_site_frac: all site centres that are searched together with the same radius (the whole
+    site set for a single radius, the label group for per-label radii); s_local indexes into it."""
     from MDAnalysis.lib.distances import distance_array
     from MDAnalysis.lib.mdamath import triclinic_vectors
     from MDAnalysis.lib.pkdtree import PeriodicKDTree
 
-    lengths = np.linalg.norm(m, axis=1)
+    from pymatgen.core import Lattice
 
-    def ang(u, v):
-        return np.degrees(np.arccos(np.clip(np.dot(u, v) / (np.linalg.norm(u) * np.linalg.norm(v)), -1, 1)))
-
-    box = np.array([*lengths, ang(m[1], m[2]), ang(m[0], m[2]), ang(m[0], m[1])], dtype=np.float32)
-    bm = triclinic_vectors(box.astype(np.float64), dtype=np.float64)
+    # same numbers GEMDAT hands to MDAnalysis: float64 cell parameters -> box matrix, float32 box
+    params = np.array(Lattice(np.asarray(m)).parameters)
+    box = params.astype(np.float32)
+    bm = triclinic_vectors(params, dtype=np.float64)
     atoms = np.asarray(all_frac).reshape(-1, 3) @ bm
-    site = np.asarray(site_frac_one).reshape(1, 3) @ bm
+    centres = np.asarray(group_site_frac).reshape(-1, 3) @ bm
+    site = centres[s_local : s_local + 1]
     tree = PeriodicKDTree(box=box)
     tree.set_coords(atoms, cutoff=cutoff)
-    pairs = tree.search_tree(site, radius)
-    found = bool(len(pairs) and np.any(pairs[:, 1] == atom_flat_index))
+    pairs = tree.search_tree(centres, radius)
+    found = bool(len(pairs) and np.any((pairs[:, 1] == atom_flat_index) & (pairs[:, 0] == s_local)))
     brute = float(distance_array(site.astype(np.float32), atoms[atom_flat_index : atom_flat_index + 1].astype(np.float32), box=box)[0, 0])
     return found, brute < radius
 
 
-def check_assignment(ctx, what, m, pos, site_frac, radii, f, states, inner, disjoint, cutoff, wit):
+def site_group(groups, s, S):
+    """indices of the sites searched together with site s (same label when radii are per label)."""
+    if groups is None:
+        return list(range(S))
+    return [i for i in range(S) if groups[i] == groups[s]]
+
+
+def check_assignment(ctx, what, m, pos, site_frac, radii, f, states, inner, disjoint, cutoff, wit, groups=None):
     """The deciding oracle.  pos [T, A, 3] wrapped fractional, states/inner [T, A]."""
     T, A, _ = pos.shape
     S = len(site_frac)
@@ -109,7 +119,8 @@ def check_assignment(ctx, what, m, pos, site_frac, radii, f, states, inner, disj
         for k in miss[:50]:
             s = int(np.argmax(must[k]))
             try:
-                found, brute = mda_pair_found(m, flat, site_frac[s], float(radii[s] * fac), cutoff, int(k))
+                grp = site_group(groups, s, S)
+                found, brute = mda_pair_found(m, flat, site_frac[grp], grp.index(s), float(radii[s] * fac), cutoff, int(k))
             except Exception:  # noqa: BLE001
                 found, brute = True, True
             t, a = divmod(int(k), A)
@@ -317,7 +328,8 @@ def run_unit(unit, rng, ctx):
             ctx.check(2 * _seen['auto_radius'] < dmin and abs(_seen['auto_radius'] - r_exp) <= 1e-9, f'{what}: automatic radius used by the code is {_seen["auto_radius"]!r}; min(2*vib, d_min/2-0.005) = {r_exp!r}, d_min = {dmin!r}', wit)
             ctx.count('auto_radius_observed_at_hook')
     cutoff = float(np.max(radii))
-    n_bad, n_known, via = check_assignment(ctx, what, m, pos, sys_.site_frac, radii, f, states, inner, disjoint, cutoff, wit)
+    groups = sys_.labels if isinstance(arg, dict) else None
+    n_bad, n_known, via = check_assignment(ctx, what, m, pos, sys_.site_frac, radii, f, states, inner, disjoint, cutoff, wit, groups)
     if mode in ('float', 'dict') and n_bad == 0 and n_known == 0:
         # margin-controlled atoms: the intended history must be reproduced exactly
         ctx.check(np.array_equal(states[:, :nA], sys_.states_true) and np.array_equal(inner[:, :nA], sys_.inner_true), f'{what}: margin-controlled atoms are not assigned to the sites they were placed in', wit)
